@@ -4304,3 +4304,293 @@ class equal_names_equal_arrays:
 
     def domain(tier, rng):
         yield {"tier": tier}
+
+
+@contract("dask_array/reductions/_reduction.py::_normalize_split_every", spec="split-every-settings", props=["C09"])
+class reductions_under_split_every:
+    """a reduction computes NumPy's value under every setting of split_every -- an integer or a per-axis dict with
+    different fan-ins, given as a keyword, or through the configuration in effect at construction, at compute time, or
+    both -- for block grids on which the axes need different numbers of tree levels"""
+    bounded_only = True
+    params = {"grid": "const", "split": "const", "how": "const"}
+    scope = ("2-D arrays with block grids (3,4) (5,6) (4,2) (2,7), 3-D (2,3,4); 14 split_every settings (ints 2 3 4 8 16, per-axis "
+             "dicts with equal and different fan-ins, partial dicts); keyword / config at construction / at compute / both; "
+             "sum, max, argmax, mean, var over all axes, axis 0, axis 1, keepdims both")
+
+    SPLITS = [2, 3, 4, 8, 16, {0: 2, 1: 8}, {0: 8, 1: 2}, {0: 2, 1: 6}, {0: 3, 1: 16}, {0: 2, 1: 2}, {0: 2}, {1: 3}, {0: 16, 1: 2}, {0: 4, 1: 3}]
+
+    def real():
+        return lambda split_every, axis: None
+
+    def call(fn, grid, split, how):
+        import dask
+        import numpy as np
+        import dask_array as da
+        shape = tuple(2 * g for g in grid)
+        d = (np.arange(int(np.prod(shape)), dtype="f8").reshape(shape) * 7) % 23
+        se = reductions_under_split_every.SPLITS[split]
+        if isinstance(se, dict):
+            se = {k: v for k, v in se.items() if k < len(grid)}
+        bad = []
+
+        def build_all(x, kw):
+            out = {}
+            for red in ("sum", "max", "argmax", "mean", "var"):
+                for axis in (None, 0, 1, (0, 1)):
+                    for keep in (False, True):
+                        if red == "argmax" and (axis == (0, 1) or keep):
+                            continue
+                        k2 = dict(kw)
+                        if isinstance(k2.get("split_every"), dict) and axis is not None and red != "argmax":
+                            ax = (axis,) if isinstance(axis, int) else axis
+                            k2["split_every"] = {a: v for a, v in k2["split_every"].items() if a in ax} or None
+                            if k2["split_every"] is None:
+                                k2.pop("split_every")
+                        if red == "argmax":
+                            k2.pop("split_every", None) if isinstance(k2.get("split_every"), dict) else None
+                            out[(red, axis, keep)] = getattr(da, red)(x, axis=axis, **k2)
+                        else:
+                            out[(red, axis, keep)] = getattr(x, red)(axis=axis, keepdims=keep, **k2)
+            return out
+
+        def refs():
+            out = {}
+            for red in ("sum", "max", "argmax", "mean", "var"):
+                for axis in (None, 0, 1, (0, 1)):
+                    for keep in (False, True):
+                        if red == "argmax" and (axis == (0, 1) or keep):
+                            continue
+                        out[(red, axis, keep)] = getattr(np, red)(d, axis=axis) if red == "argmax" else getattr(d, red)(axis=axis, keepdims=keep)
+            return out
+        want = refs()
+        mk = lambda: da.from_array(d, chunks=2)
+        try:
+            if how == "keyword":
+                progs = build_all(mk(), {"split_every": se})
+                got = {k: np.asarray(v.compute(scheduler="sync")) for k, v in progs.items()}
+            elif how == "construction":
+                with dask.config.set(split_every=se):
+                    progs = build_all(mk(), {})
+                got = {k: np.asarray(v.compute(scheduler="sync")) for k, v in progs.items()}
+            elif how == "compute":
+                progs = build_all(mk(), {})
+                with dask.config.set(split_every=se):
+                    got = {k: np.asarray(v.compute(scheduler="sync")) for k, v in progs.items()}
+            else:
+                with dask.config.set(split_every=se):
+                    progs = build_all(mk(), {})
+                    got = {k: np.asarray(v.compute(scheduler="sync")) for k, v in progs.items()}
+        except Exception as ex:
+            return {"error": f"{type(ex).__name__}: {str(ex)[:100]}", "bad": []}
+        for k in want:
+            if not _same(got[k], want[k]):
+                bad.append([repr(k), np.asarray(got[k]).tolist() if np.asarray(got[k]).size < 8 else "...", np.asarray(want[k]).tolist() if np.asarray(want[k]).size < 8 else "..."])
+        return {"error": None, "bad": bad, "n": len(want)}
+
+    def requires(grid, split, how):
+        return True
+
+    def ensures(result, grid, split, how):
+        return {"every-reduction-computes-under-the-setting": result["error"] is None,
+                "values-equal-numpy": result["bad"] == []}
+
+    def domain(tier, rng):
+        grids = [(3, 4), (5, 6), (4, 2), (2, 7), (2, 3, 4)]
+        hows = ("keyword", "construction", "compute", "both")
+        for gi, grid in enumerate(grids):
+            for si in range(len(reductions_under_split_every.SPLITS)):
+                for hi, how in enumerate(hows):
+                    if tier == "quick" and (gi + si + hi) % 2:
+                        continue
+                    yield {"grid": grid, "split": si, "how": how}
+
+
+@contract("dask_array/_collection.py::Array._replace_expr", spec="entry-points-agree-after-in-place-updates", props=["C05", "C11"])
+class entry_points_after_inplace:
+    """after a collection has been materialized once (computed, persisted, turned into delayed blocks, or its graph read)
+    and then updated in place (mask / slice / integer-list assignment, augmented assignment, a ufunc with out=,
+    compute_chunk_sizes), every entry point -- the methods, which read the cached materialization, and the dask.* functions,
+    which read the expression -- yields the updated values, and the persisted collection carries the updated name"""
+    bounded_only = True
+    params = {"first": "const", "update": "const", "chunks": "const"}
+    scope = "1-D float array of 12 in 3 layouts; 5 ways of materializing first; 7 in-place updates; 9 entry points"
+
+    def real():
+        return lambda self, expr: None
+
+    def call(fn, first, update, chunks):
+        import dask
+        import numpy as np
+        import dask_array as da
+        d = (np.arange(12.0) * 5) % 13
+        x = da.from_array(d, chunks=chunks) + 1
+        ref = d + 1
+        if first == "compute":
+            x.compute(scheduler="sync")
+        elif first == "persist":
+            x.persist(scheduler="sync")
+        elif first == "to_delayed":
+            x.to_delayed()
+        elif first == "graph":
+            x.dask
+            x.__dask_keys__()
+        # "none": not materialized before the update
+        if update == "mask":
+            x[x > 10] = -1
+            ref = np.where(ref > 10, -1, ref)
+        elif update == "slice":
+            x[2:9:2] = 100
+            ref[2:9:2] = 100
+        elif update == "list":
+            x[[1, 7, 3]] = np.array([5.0, 6.0, 7.0])
+            ref[[1, 7, 3]] = np.array([5.0, 6.0, 7.0])
+        elif update == "iadd":
+            x += 2
+            ref = ref + 2
+        elif update == "imul-dask":
+            x *= da.from_array(np.arange(12.0), chunks=5)
+            ref = ref * np.arange(12.0)
+        elif update == "out":
+            da.negative(x, out=x)
+            ref = -ref
+        elif update == "mask-then-slice":
+            x[x > 10] = -1
+            ref = np.where(ref > 10, -1, ref)
+            x[:3] = 0
+            ref[:3] = 0
+        other = da.ones((3,), chunks=2)
+        vals, errs, meta = {}, {}, {}
+
+        def attempt(label, f):
+            try:
+                vals[label] = np.asarray(f())
+            except Exception as ex:
+                errs[label] = f"{type(ex).__name__}: {str(ex)[:80]}"
+        attempt("x.compute()", lambda: x.compute(scheduler="sync"))
+        attempt("dask.compute(x)", lambda: dask.compute(x, scheduler="sync")[0])
+        attempt("dask.compute(x, other)", lambda: dask.compute(x, other, scheduler="sync")[0])
+        for label, f in (("x.persist()", lambda: x.persist(scheduler="sync")), ("dask.persist(x)", lambda: dask.persist(x, scheduler="sync")[0]),
+                         ("dask.optimize(x)", lambda: dask.optimize(x)[0]), ("x.optimize()", lambda: x.optimize())):
+            try:
+                c = f()
+                meta[label] = c.name == x.name or label == "x.optimize()"
+                attempt(label, lambda c=c: c.compute(scheduler="sync"))
+                attempt(label + " * 2", lambda c=c: (c * 2).compute(scheduler="sync") / 2)
+            except Exception as ex:
+                errs[label] = f"{type(ex).__name__}: {str(ex)[:80]}"
+
+        def from_delayed():
+            return np.concatenate([np.asarray(b.compute(scheduler="sync")) for b in x.to_delayed().ravel()])
+        attempt("x.to_delayed()", from_delayed)
+        attempt("graph+keys", lambda: np.concatenate(dask.get(dict(x.__dask_graph__()), list(x.__dask_keys__()))))
+        return {"vals": vals, "errs": errs, "meta": meta, "ref": ref}
+
+    def requires(first, update, chunks):
+        return True
+
+    def ensures(result, first, update, chunks):
+        return {"every-entry-point-computes": result["errs"] == {},
+                "every-entry-point-yields-the-updated-values": all(_same(v, result["ref"]) for v in result["vals"].values()),
+                "persisted-and-optimised-collections-carry-the-updated-name": all(result["meta"].values())}
+
+    def domain(tier, rng):
+        for first in ("none", "compute", "persist", "to_delayed", "graph"):
+            for update in ("mask", "slice", "list", "iadd", "imul-dask", "out", "mask-then-slice"):
+                for chunks in ((4,), (5,), (12,)):
+                    yield {"first": first, "update": update, "chunks": chunks}
+
+
+@contract("dask_array/_expr.py::ArrayExpr._name", spec="near-miss-families", props=["C06"])
+class names_near_miss_families:
+    """families of programs that differ in exactly one respect that matters (block sizes with the same number of blocks, a
+    region of the same length, a closure cell, a configuration value, the data behind a user-supplied name, a scalar that
+    compares equal, ...): with all members of a family ALIVE together -- so that de-duplication by name would substitute one
+    for another -- every member has the chunks and dtype NumPy / the request imply and computes its own values; members
+    that share a name are the same array; and the same holds when the members are built one after the other with nothing
+    kept alive (the name-keyed registries emptied in between)"""
+    bounded_only = True
+    params = {"family": "const"}
+    scope = "about 90 families of 2-7 near-miss programs (random, from_array auto / user names / regions, creation routines, rechunk, map_blocks closures, scalars, dtypes, axes, indices, masks)"
+
+    def real():
+        return lambda self: None
+
+    def call(fn, family):
+        import gc
+        import numpy as np
+        members = cat.naming_families()[family]
+        out = {"alive": [], "alone": []}
+        for mode in ("alive", "alone"):
+            kept = []
+            for label, build in members:
+                try:
+                    x, want, chunks = build()
+                    got = np.asarray(x.compute(scheduler="sync"))
+                    rec = {"label": label, "name": x.name, "chunks": repr(x.chunks), "dtype": str(x.dtype), "value": got,
+                           "want": want, "want_chunks": None if chunks is None else repr(tuple(tuple(c) for c in chunks)),
+                           "block_shapes_ok": _block_shapes_ok(x), "err": None}
+                except Exception as ex:
+                    rec = {"label": label, "err": f"{type(ex).__name__}: {str(ex)[:80]}"}
+                    x = None
+                out[mode].append(rec)
+                if mode == "alive":
+                    kept.append(x)
+                else:
+                    del x
+                    gc.collect()
+            del kept
+            gc.collect()
+        return out
+
+    def requires(family):
+        return True
+
+    def ensures(result, family):
+        r = {}
+        for mode in ("alive", "alone"):
+            recs = result[mode]
+            ok_err = all(m["err"] is None for m in recs)
+            good = [m for m in recs if m["err"] is None]
+            r[f"{mode}:every-member-builds-and-computes"] = ok_err
+            r[f"{mode}:values-are-the-members-own"] = all(m["want"] is None or (_same(m["value"], m["want"]) and str(np_dtype(m["want"])) == m["dtype"]) for m in good)
+            r[f"{mode}:chunks-are-the-requested-ones"] = all(m["want_chunks"] is None or m["chunks"] == m["want_chunks"] for m in good)
+            r[f"{mode}:blocks-have-the-advertised-shapes"] = all(m["block_shapes_ok"] for m in good)
+            same = True
+            for i, a in enumerate(good):
+                for b in good[i + 1:]:
+                    if a["name"] == b["name"] and not (a["chunks"] == b["chunks"] and a["dtype"] == b["dtype"] and _same(a["value"], b["value"])):
+                        same = False
+            r[f"{mode}:members-sharing-a-name-are-the-same-array"] = same
+        # what a member is must not depend on who else is alive
+        pairs = zip(result["alive"], result["alone"])
+        r["a-member-is-the-same-array-whoever-else-is-alive"] = all(
+            a["err"] is not None or b["err"] is not None or (a["chunks"] == b["chunks"] and a["dtype"] == b["dtype"] and
+                                                              (family.startswith("random") and a["name"] != b["name"] or _same(a["value"], b["value"])))
+            for a, b in pairs)
+        return r
+
+    def domain(tier, rng):
+        for family in cat.naming_families():
+            yield {"family": family}
+
+
+def np_dtype(a):
+    import numpy as np
+    return np.asarray(a).dtype
+
+
+def _block_shapes_ok(x):
+    """every block of the collection's own graph has the shape its advertised chunks say (unknown sizes excepted)"""
+    import itertools
+    import math
+    import dask
+    import numpy as np
+    keys = list(dask.core.flatten(x.__dask_keys__()))
+    vals = dask.get(dict(x.__dask_graph__()), keys)
+    grid = list(itertools.product(*[range(len(c)) for c in x.chunks])) if x.chunks else [()]
+    for idx, v in zip(grid, vals):
+        want = tuple(c[i] for c, i in zip(x.chunks, idx))
+        got = np.asarray(v).shape
+        if len(got) != len(want) or any(not (isinstance(w, float) and math.isnan(w)) and g != w for g, w in zip(got, want)):
+            return False
+    return True
